@@ -220,6 +220,19 @@ func flipBit(e *env, data []byte, lo, hi int) {
 	data[lo+e.s.Choose(hi-lo)] ^= 1 << uint(e.s.Choose(8))
 }
 
+// keepOriginal registers the authentic datagram a forgery is about to be derived from: a network
+// fault (bit flip, appended byte) can undo the forgery, and what arrives then is an authentic
+// packet to be judged as one.
+func (e *env) keepOriginal(m *pktMeta) {
+	o := *m
+	o.kind = "genuine"
+	o.authentic = true
+	o.data = append([]byte(nil), m.data...)
+	if _, dup := e.metaByData[e.key(o.data)]; !dup {
+		e.metaByData[e.key(o.data)] = &o
+	}
+}
+
 // attack builds and sends one attacker packet in the name of session ps.
 func (e *env) attack(ps *peerSess) {
 	s := e.s
@@ -249,12 +262,15 @@ func (e *env) attack(ps *peerSess) {
 	switch kind {
 	case "forged-body":
 		m = e.build(ps, kind, false, id, now, nil, nil)
+		e.keepOriginal(m)
 		flipBit(e, m.data, hdr, len(m.data)-16)
 	case "forged-tag":
 		m = e.build(ps, kind, false, id, now, nil, nil)
+		e.keepOriginal(m)
 		flipBit(e, m.data, len(m.data)-16, len(m.data))
 	case "forged-sep":
 		m = e.build(ps, kind, false, id, now, nil, nil)
+		e.keepOriginal(m)
 		flipBit(e, m.data, 0, 16)
 	case "stale":
 		ts := now + util.Pick(s, []int64{-31, 31, -31, 31, -32, 32, -60, 61, -3600, 3600, -86400 * 365})
@@ -308,6 +324,7 @@ func (e *env) attack(ps *peerSess) {
 		m = e.build(ps, kind, false, id, now, nil, func(sm *serverMsg) { sm.csid = csid })
 	case "truncated":
 		m = e.build(ps, kind, false, id, now, nil, nil)
+		e.keepOriginal(m)
 		n := util.Pick(s, []int{0, 1, 15, 16, 17, 31, 32, 33, hdr + 15, hdr + 16, len(m.data) - 1, len(m.data) - 16, len(m.data) - 17})
 		if n >= len(m.data) {
 			n = len(m.data) - 1
